@@ -783,7 +783,12 @@ static JanetSignal run_vm(JanetFiber *fiber, Janet in) {
     VM_OP(JOP_BNOT) {
         Janet op = stack[E];
         if (janet_checktype(op, JANET_NUMBER)) {
-            stack[A] = janet_wrap_integer(~janet_unwrap_integer(op));
+            double y = janet_unwrap_number(op);
+            if (!janet_checkintrange(y)) {
+                vm_commit();
+                janet_panicf("value %v out of range for 32-bit signed integers", op);
+            }
+            stack[A] = janet_wrap_integer(~(int32_t) y);
             vm_pcnext();
         } else {
             vm_commit();
